@@ -163,6 +163,18 @@ def check_c11(tier):
         scen.append({"case": f"C11-a{k}", "instance": "bgpfu", "eph0": [],
                      "runs": [{"running": running, "irr": g["irr"], "faults": [], "repeat": False,
                                "expect": {"prop": "C11", "c16": False, "policies": policies}}], "meta": {"group": k}})
+    # ... and keeps them installed: the same routers served by ONE daemon process over several jobs - the first job's
+    # commit is refused by the router / the router loses its ephemeral data between two jobs (reboot); what counts is
+    # what is installed when the last job has reported success
+    last_run = {}
+    for s in list(scen[: (12 if tier == "thorough" else 4)]):
+        run = s["runs"][0]
+        bad = dict(run, faults=[{"target": "commit", "index": 0, "kind": "rpc-error"}])
+        scen.append(dict(s, case=s["case"] + "-D1", daemon={"period": 1, "sessions": 2, "reset_before": []}, runs=[bad, run],
+                         meta=dict(s["meta"], mode="daemon: first commit refused")))
+        scen.append(dict(s, case=s["case"] + "-D2", daemon={"period": 1, "sessions": 3, "reset_before": [3]}, runs=[run],
+                         meta=dict(s["meta"], mode="daemon: ephemeral data lost before the third job")))
+        last_run[s["case"] + "-D1"] = 2; last_run[s["case"] + "-D2"] = 3
     spath = os.path.join(wd, "agent-scenarios.ndjson")
     with open(spath, "w") as f:
         for s in scen:
@@ -180,7 +192,10 @@ def check_c11(tier):
                 exit_ok[e["case"]] = e["code"] == 0
             if e["ev"] != "run_end":
                 continue
-            k = int(e["case"].split("-a")[1]); g = groups[k]
+            if e["case"] in last_run and e.get("run") != last_run[e["case"]]:
+                continue
+            k = int(e["case"].split("-a")[1].split("-")[0]); g = groups[k]
+            via = "agent (daemon, job %d)" % e["run"] if e["case"] in last_run else "agent"
             installed = {p["name"]: p for p in e["eph"]}
             for c in g["cases"][:12]:
                 pol = installed.get("p-" + c["case"])
@@ -205,7 +220,7 @@ def check_c11(tier):
                             atoms.append([4, net.prefixlen, (int(net.network_address) - int(ipaddress.IPv4Address("10.0.0.0"))) >> (32 - net.prefixlen)])
                         else:
                             atoms.append([6, net.prefixlen, (int(net.network_address) - int(ipaddress.IPv6Address("2001:db8::"))) >> (128 - net.prefixlen)])
-                out.write(json.dumps({"ev": "eval", "via": "agent", "prop": "C11", "case": c["case"], "db": g["db"], "expr": c["expr"],
+                out.write(json.dumps({"ev": "eval", "via": via, "prop": "C11", "case": c["case"], "db": g["db"], "expr": c["expr"],
                                       "expr_str": c["expr_str"], "errs": NOERR, "pos": 1, "outcome": outcome, "atoms": atoms,
                                       "extra": extra}) + "\n")
                 nagent += 1
@@ -237,6 +252,9 @@ CONSTANTS
   MaxCalls = %d
   DrainOnDrop = %s
   Ans <- MCAns
+  AnsAll <- MCAnsAll
+  WidenOnNotUnique = %s
+INVARIANT SelectionKept
 INVARIANT Aligned
 INVARIANT CleanStart
 INVARIANT HistoryFree
@@ -248,15 +266,19 @@ def irrd_design(tier):
     """Irrd.tla: the pipelined query protocol as query.rs / irrc use it, every history of resolver calls; the
     negative control (a dropped pipeline forgets what is outstanding) must be refuted by TLC."""
     n = 4 if tier == "thorough" else 3
-    pos = run_tlc("MCIrrd", IRRD_CFG % (n, "TRUE", "PROPERTY Finishes"), "irrd-design", workers=8, timeout=3000)
+    pos = run_tlc("MCIrrd", IRRD_CFG % (n, "TRUE", "FALSE", "PROPERTY Finishes"), "irrd-design", workers=8, timeout=3000)
     if pos["violated"]:
         raise ToolError(f"Irrd.tla: {pos['violated']} violated by the model of the code as it is (see {pos['out']})")
-    neg = run_tlc("MCIrrd", IRRD_CFG % (2, "FALSE", ""), "irrd-negative", workers=4, timeout=600)
+    neg = run_tlc("MCIrrd", IRRD_CFG % (2, "FALSE", "FALSE", ""), "irrd-negative", workers=4, timeout=600)
     if not neg["violated"]:
         raise ToolError("Irrd.tla: the negative control (DrainOnDrop = FALSE) was not refuted - the model lost its teeth")
+    neg2 = run_tlc("MCIrrd", IRRD_CFG % (2, "TRUE", "TRUE", ""), "irrd-negative-sources", workers=4, timeout=600)
+    if not neg2["violated"]:
+        raise ToolError("Irrd.tla: the negative control (WidenOnNotUnique = TRUE) was not refuted - the model lost its teeth")
     return {"module": "Irrd.tla / MCIrrd", "histories_of_resolver_calls_up_to": n, "states": pos["distinct"], "transitions": pos["generated"],
-            "depth": pos["depth"], "invariants": ["Aligned", "CleanStart", "HistoryFree"], "liveness": "Finishes",
-            "negative_control": {"DrainOnDrop": False, "violated": neg["violated"], "states": neg["distinct"]}}
+            "depth": pos["depth"], "invariants": ["Aligned", "CleanStart", "HistoryFree", "SelectionKept"], "liveness": "Finishes",
+            "negative_control": {"DrainOnDrop": False, "violated": neg["violated"], "states": neg["distinct"]},
+            "negative_control_sources": {"WidenOnNotUnique": True, "violated": neg2["violated"], "states": neg2["distinct"]}}
 
 def check_c17(tier):
     t0 = time.time(); prop = "C17"
